@@ -1,2 +1,163 @@
-/-! placeholder driver (property C13 not built yet) -/
-def main : IO Unit := IO.println "bad-op"
+import LlgoVerif.Util
+import LlgoVerif.Model.Cache
+/-! Line-protocol driver for C13 (stateful: the model's cache lives across lines).
+
+    `use <opt> <ccrest>`                 → `ok <CCFLAGS list>`                    (crosscompile export)
+    `key G=… P=… P=…`                    → `ok <hexid>!<canonical manifest>!<hash of the full fingerprint> …`
+    `rel G=… P=… P=…`                    → `ok <hexid>!<hash of the relevant inputs> …`
+    `build <force> <cacheOn> G=… P=… …`  → `ok <hexid>:<hit|miss>:<fresh|stale> …`   (model's `buildProg` on the state)
+    `clean`                              → `ok`
+    Strings are hex of bytes (`-` = empty), lists are `,`-separated (`.` = empty).  See harness/c13/main.go. -/
+open LlgoVerif LlgoVerif.Util LlgoVerif.Cache
+
+def unhexS (h : String) : Option String :=
+  (unhex h).map fun bs => String.ofList (bs.map fun b => Char.ofNat b.toNat)
+
+def hexS (s : String) : String := hex (s.toList.map fun c => UInt8.ofNat c.toNat)
+
+def unhexB (h : String) : Option Bytes := (unhex h).map fun bs => bs.map (·.toNat)
+
+def hexB (b : Bytes) : String := hex (b.map UInt8.ofNat)
+
+def unlist (s : String) : Option (List String) :=
+  if s = "." then some [] else (s.splitOn ",").mapM unhexS
+
+def hexList (l : List String) : String := if l.isEmpty then "." else ",".intercalate (l.map hexS)
+
+def unkv (s : String) : Option (List (String × String)) :=
+  if s = "." then some [] else
+  (s.splitOn ",").mapM fun kv => match kv.splitOn "=" with
+    | [k, v] => do pure ((← unhexS k), (← unhexS v))
+    | _ => none
+
+def parseInt (s : String) : Option Int :=
+  if s.startsWith "-" then (s.drop 1).toString.toNat?.map fun n => -(n : Int) else s.toNat?.map fun n => (n : Int)
+
+def unfile (s : String) : Option SrcFile :=
+  match s.splitOn ":" with
+  | p :: c :: m :: o :: rest => do
+    let path ← unhexS p
+    let content ← unhexB c
+    let mtime ← parseInt m
+    let overlay ← if o = "~" then some none else (unhexB o).map some
+    let tag ← match rest with
+      | [t, pol] => if t = "~" then some none else (unhexS t).map fun t => some (t, pol == "1")
+      | _ => some none
+    pure { file := { path, content, mtime, overlay }, tag }
+  | _ => none
+
+def unfiles (s : String) : Option (List SrcFile) :=
+  if s = "." || s = "!" then some [] else (s.splitOn ",").mapM unfile
+
+def optOf : Nat → Option OptLevel
+  | 0 => some .O0 | 1 => some .O1 | 2 => some .O2 | 3 => some .O3 | 4 => some .Os | 5 => some .Oz | _ => none
+
+def parseG (s : String) : Option Global :=
+  match s.splitOn ";" with
+  | [goos, goarch, target, tabi, triple, abi, opt, tags, chash, llvmver, gover, llgover, cc, ccrest, cflags, ldflags,
+     linker, extra, env] => do
+    pure { goos := ← unhexS goos, goarch := ← unhexS goarch, target := ← unhexS target, targetABI := ← unhexS tabi,
+           llvmTriple := ← unhexS triple, abiMode := ← abi.toNat?, opt := ← (opt.toNat?).bind optOf, tags := ← unhexS tags,
+           compilerHash := ← unhexS chash, llvmVersion := ← unhexS llvmver, goVersion := ← unhexS gover,
+           llgoVersion := ← unhexS llgover, cc := ← unhexS cc, ccflagsRest := ← unlist ccrest, cflags := ← unlist cflags,
+           ldflags := ← unlist ldflags, linker := ← unhexS linker, extraFiles := (← unfiles extra).map (·.file),
+           env := ← unkv env }
+  | _ => none
+
+def parseP (s : String) : Option (PkgData × List String) :=
+  match s.splitOn ";" with
+  | [id, path, name, _modkind, modver, gof, alt, oth, side, emb, rw, deps] => do
+    pure ({ id := ← unhexS id, path := ← unhexS path, name := ← unhexS name, modVersion := ← unhexS modver,
+            goFiles := ← unfiles gof, altFiles := (← unfiles alt).map (·.file), otherFiles := (← unfiles oth).map (·.file),
+            sideFiles := (← unfiles side).map (·.file), embedFiles := (← unfiles emb).map (·.file),
+            rewriteVars := ← unkv rw }, ← unlist deps)
+  | _ => none
+
+/-- packages arrive dependencies first; unfold the DAG into one tree per package -/
+def mkTrees (ps : List (PkgData × List String)) : List PkgT :=
+  let acc := ps.foldl (fun (acc : List (String × PkgT)) p =>
+    let deps := p.2.filterMap fun i => (acc.find? (·.1 == i)).map (·.2)
+    acc ++ [(p.1.id, PkgT.mk p.1 deps)]) []
+  acc.map (·.2)
+
+def parseProg (toks : List String) : Option (Global × List PkgT) :=
+  match toks with
+  | g :: ps =>
+    if !g.startsWith "G=" then none else do
+    let g ← parseG (g.drop 2).toString
+    let ps ← ps.mapM fun p => if p.startsWith "P=" then parseP (p.drop 2).toString else none
+    pure (g, mkTrees ps)
+  | _ => none
+
+/-! canonical rendering — must agree with `verifCanon` in harness/c13/overlay/zz_verif_c13.go.txt -/
+
+def hb' (c : Bytes) : String := "#" ++ hexB c
+
+def rDigests (l : List (FileDigest String)) : String :=
+  if l.isEmpty then "." else ",".intercalate (l.map fun d =>
+    hexS d.path ++ "/" ++ toString d.size ++ "/" ++ toString d.mtime ++ "/" ++ (d.overlayHash.getD "~"))
+
+def rMap (m : List (String × String)) : String :=
+  if m.isEmpty then "." else ",".intercalate (m.map fun kv => hexS kv.1 ++ ":" ++ hexS kv.2)
+
+def renderWith (depFp : DepEntry String → String) (m : Manifest String) : String :=
+  "env[GOOS=" ++ hexS m.env.goos ++ ";GOARCH=" ++ hexS m.env.goarch ++ ";GO_VERSION=" ++ hexS m.env.goVersion
+    ++ ";LLGO_VERSION=" ++ hexS m.env.llgoVersion ++ ";LLGO_COMPILER_HASH=" ++ hexS m.env.compilerHash
+    ++ ";LLVM_TRIPLE=" ++ hexS m.env.llvmTriple ++ ";LLVM_VERSION=" ++ hexS m.env.llvmVersion
+    ++ ";VARS=" ++ rMap m.env.vars ++ "]"
+  ++ "+common[ABI_MODE=" ++ hexS (toString m.common.abiMode) ++ ";BUILD_TAGS=" ++ hexList m.common.buildTags
+    ++ ";TARGET=" ++ hexS m.common.target ++ ";TARGET_ABI=" ++ hexS m.common.targetABI ++ ";CC=" ++ hexS m.common.cc
+    ++ ";CCFLAGS=" ++ hexList m.common.ccflags ++ ";CFLAGS=" ++ hexList m.common.cflags
+    ++ ";LDFLAGS=" ++ hexList m.common.ldflags ++ ";LINKER=" ++ hexS m.common.linker
+    ++ ";EXTRA_FILES=" ++ rDigests m.common.extraFiles ++ "]"
+  ++ "+pkg[pkg_path=" ++ hexS m.pkg.pkgPath ++ ";pkg_id=" ++ hexS m.pkg.pkgID ++ ";go_files=" ++ rDigests m.pkg.goFiles
+    ++ ";alt_go_files=" ++ rDigests m.pkg.altGoFiles ++ ";other_files=" ++ rDigests m.pkg.otherFiles
+    ++ ";rewrite_vars=" ++ rMap m.pkg.rewriteVars ++ "]"
+  ++ "+deps[" ++ (if m.deps.isEmpty then "." else ",".intercalate (m.deps.map fun d =>
+      hexS d.id ++ ":" ++ hexS d.version ++ ":" ++ depFp d)) ++ "]"
+
+/-- the driver's instance of `fp`: the full rendering (dependency fingerprints spelled out), hashed to 64 bits -/
+def fp' (m : Manifest String) : String :=
+  toString (hash (renderWith (fun d => d.fingerprint.getD "~") m))
+
+def canon (m : Manifest String) : String :=
+  renderWith (fun d => match d.fingerprint with | some _ => "@" ++ hexS d.id | none => "~") m
+
+def relHash (r : Rel) : String := toString (hash (toString (repr r)))
+
+abbrev St := CacheMap String Rel
+
+def handle (st : St) (line : String) : St × String :=
+  match fields line with
+  | ["use", opt, rest] =>
+    match (opt.toNat?).bind optOf, unlist rest with
+    | some o, some r => (st, "ok " ++ hexList (exportCCFlags { opt := o, ccflagsRest := r }))
+    | _, _ => (st, "bad-op")
+  | "key" :: toks =>
+    match parseProg toks with
+    | some (g, ts) => (st, "ok " ++ " ".intercalate (ts.map fun t =>
+        let m := key hb' fp' g t
+        hexS t.data.id ++ "!" ++ canon m ++ "!" ++ fp' m))
+    | none => (st, "bad-op")
+  | "rel" :: toks =>
+    match parseProg toks with
+    | some (g, ts) => (st, "ok " ++ " ".intercalate (ts.map fun t => hexS t.data.id ++ "!" ++ relHash (relevant g t)))
+    | none => (st, "bad-op")
+  | "build" :: force :: cacheOn :: toks =>
+    match parseProg toks with
+    | some (g, ts) =>
+      let o : BuildOpts := { force := force = "1", cacheOn := cacheOn = "1" }
+      -- the model's buildProg, one package at a time so that hit/miss and fresh/stale can be reported
+      let r := ts.foldl (fun (acc : St × List String) t =>
+        let k := fp' (key hb' fp' g t)
+        let hit := o.cacheOn && !o.force && (lookup acc.1 k).isSome
+        let b := buildPkg hb' fp' (fun r => r) o g acc.1 t
+        let fresh := relHash b.2 == relHash (relevant g t)
+        (b.1, acc.2 ++ [hexS t.data.id ++ ":" ++ (if hit then "hit" else "miss") ++ ":" ++ (if fresh then "fresh" else "stale")]))
+        (st, [])
+      (r.1, "ok " ++ " ".intercalate r.2)
+    | none => (st, "bad-op")
+  | ["clean"] => (([] : St), "ok")
+  | _ => (st, "bad-op")
+
+def main : IO Unit := lineLoopSt ([] : St) handle
